@@ -28,12 +28,18 @@ inductive FOp
   | got (r : Nat) (e : Int)   -- logged after get returned
   | back (r : Nat)            -- logged before back is called
   | sample (n : Nat)          -- pool.inUse()
+  | maxHeld (m : Nat)         -- most events held at once, counted by the harness itself
   | fin (inUse waiters : Nat) -- after every reader finished
   | wedged
   deriving DecidableEq, Repr
 
 structure APool where
   cap : Nat
+  /-- slack of the pool's own counter over the holders: 0 for the low-memory pool (`inUse()` clips to the
+      capacity); for the standard pool the readers whose `back` has refilled its slot but not yet done
+      `inUseEvents.Dec()` (Props/C05 `std_held_le_capacity`: inUse = #(holding … bdec)), at most the
+      number of readers -/
+  slack : Nat := 0
   held : List (Nat × Int) := []
   deriving Repr
 
@@ -42,7 +48,8 @@ def APool.step? (p : APool) : FOp → Option APool
     if p.held.length < p.cap ∧ !(p.held.any (·.1 == r)) ∧ (e < 0 ∨ !(p.held.any (·.2 == e))) ∧ e < p.cap
     then some { p with held := (r, e) :: p.held } else none
   | .back r => if p.held.any (·.1 == r) then some { p with held := p.held.filter (·.1 != r) } else none
-  | .sample n => if n ≤ p.cap then some p else none
+  | .sample n => if n ≤ p.cap + p.slack then some p else none
+  | .maxHeld m => if m ≤ p.cap then some p else none
   | .fin a w => if a = 0 ∧ w = 0 ∧ p.held.isEmpty then some p else none
   | .wedged => none
 
@@ -50,6 +57,7 @@ def FOp.render : FOp → String
   | .got r e => s!"g{r}.{e}"
   | .back r => s!"b{r}"
   | .sample n => s!"u{n}"
+  | .maxHeld m => s!"max {m}"
   | .fin a w => s!"end {a} {w}"
   | .wedged => "wedged"
 
